@@ -84,7 +84,7 @@ func (r *c09) Exec(op []string) string {
 				func() {
 					defer func() {
 						if x := recover(); x != nil { // a panic inside a call is an observation, not a harness crash
-							e.result = "panic:" + panicClass(x)
+							e.result = "panic:" + c09clean(panicClass(x))
 						}
 					}()
 					c09call(c, f, &e)
@@ -116,6 +116,18 @@ func (r *c09) Exec(op []string) string {
 		r.st.Note("evictions")
 	}
 	return fmt.Sprintf("hist=%s;ev=[%s];len=%d;size=%d", strings.Join(hs, " "), strings.Join(evlog, " "), c.Len(), c.Size())
+}
+
+// c09clean keeps a panic class from breaking the history syntax: `/` separates the fields of an event, a
+// space separates events and `;` separates the fields of the observation (the driver rejects a history it
+// cannot read, so an unsanitised class would turn a panic into `malformed-history` instead of showing it).
+func c09clean(s string) string {
+	return strings.Map(func(r rune) rune {
+		if r == '/' || r == ';' || r == ' ' {
+			return '_'
+		}
+		return r
+	}, s)
 }
 
 func c09call(c *cache.Cache[int, int], f []string, e *c09ev) {
